@@ -9,6 +9,20 @@ from . import scenarios_def as SD
 TABLE = os.path.join(os.path.dirname(os.path.abspath(__file__)), 'tables', 'scenarios.json')
 
 
+# Scenarios in which the *type* of the exception is part of a property (C12: inputs whose other axes carry different labels raise ValueError).  Everywhere else the
+# properties say "rejected with an exception" at most: an invalid argument form that is refused with another exception type is refused all the same.
+STRICT_EXC = {
+    'dimarray.core.align.stack': ('different labels along y, no align', 'different single labels along a size-1 axis, no align'),
+    'dimarray.core.align.concatenate': ('secondary labels differ, no align',),
+}
+
+
+def _norm(q, label, outcome):
+    if outcome.startswith('raise:') and label not in STRICT_EXC.get(q, ()):
+        return 'raise'
+    return outcome
+
+
 def load_table():
     if not os.path.exists(TABLE):
         return {}
@@ -45,11 +59,15 @@ def outcomes(P, q, gen):
     return out
 
 
-def rule_scenarios(ctx, rid='RS'):
+def rule_scenarios(ctx, rid='RS', only=None, title=None):
+    """`only`: the one function whose table is used as the decision procedure of rule `rid` of a property (instead of the property's RS rule)"""
     table = load_table()
-    mine = [(q, gen) for q, (props, gen) in sorted(SD.SCENARIOS.items()) if ctx.prop in props]
+    if only is not None:
+        mine = [(only, SD.SCENARIOS[only][1])]
+    else:
+        mine = [(q, gen) for q, (props, gen) in sorted(SD.SCENARIOS.items()) if ctx.prop in props]
     n_expected = sum(len(table.get(q, {})) for q, _ in mine)
-    ctx.rule(rid, 'scenario tables: argument handling of %d function(s) interpreted on abstract argument forms (%d frozen outcomes)' % (len(mine), n_expected), max(1, n_expected))
+    ctx.rule(rid, title or 'scenario tables: argument handling of %d function(s) interpreted on abstract argument forms (%d frozen outcomes)' % (len(mine), n_expected), max(1, n_expected))
     for q, gen in mine:
         res = outcomes(ctx.P, q, gen)
         if res is None:
@@ -68,7 +86,11 @@ def rule_scenarios(ctx, rid='RS'):
             if want is None:
                 ctx.undecide(rid, '%s [%s]: scenario missing from the frozen table (regenerate with tools/gen_scenarios.py and review)' % (q.split('.')[-1], label))
                 continue
-            if got != want:
+            if '(invalid)' in label:
+                # an argument form no documentation offers: whether it is refused, and how, is not part of any property - interpreted (the code must be followable), not compared
+                ctx.holds(rid, '%s [%s] (undocumented form, outcome not compared)' % (q.split('.')[-1], label))
+                continue
+            if _norm(q, label, got) != _norm(q, label, want):
                 nbad += 1
                 if nbad <= 3:
                     ctx.violated(rid, fi, '%s: %s' % (q.split('.')[-1], label), 'interpreted on this argument form the function gives\n      %s\n    expected\n      %s'
